@@ -63,6 +63,10 @@ func (x *Exec) call(fr *frame, st *State, c *ssa.CallCommon, pos token.Pos, inst
 		if fc := x.eng.ifaceContract(iname, c.Method.Name()); fc != nil {
 			return x.applyContract(fr, st, fc, sig, append([]Val{recv}, args...), pos, nil)
 		}
+		// the method may come from an embedded interface that carries the contract
+		if fc := x.eng.embeddedIfaceContract(c.Value.Type(), c.Method.Name(), 0); fc != nil {
+			return x.applyContract(fr, st, fc, sig, append([]Val{recv}, args...), pos, nil)
+		}
 		return x.externOrHavoc(fr, st, full, sig, append([]Val{recv}, args...), pos)
 	}
 	switch callee := c.Value.(type) {
@@ -1087,4 +1091,28 @@ func sigReturnsRef(sig *types.Signature) bool {
 		}
 	}
 	return false
+}
+
+// embeddedIfaceContract looks for a contract of method m on the named interfaces embedded
+// (transitively) in interface type t.
+func (e *Engine) embeddedIfaceContract(t types.Type, m string, depth int) *FuncContract {
+	if depth > 6 {
+		return nil
+	}
+	it, ok := t.Underlying().(*types.Interface)
+	if !ok {
+		return nil
+	}
+	for i := 0; i < it.NumEmbeddeds(); i++ {
+		et := it.EmbeddedType(i)
+		if n := namedOf(et); n != nil {
+			if fc := e.ifaceContract(typeKey(n), m); fc != nil {
+				return fc
+			}
+		}
+		if fc := e.embeddedIfaceContract(et, m, depth+1); fc != nil {
+			return fc
+		}
+	}
+	return nil
 }
